@@ -61,7 +61,8 @@ type Op struct {
 	RawFlags uint8       `json:"raw_flags,omitempty"`
 	RawLen   int         `json:"raw_len,omitempty"`
 	RawHex   string      `json:"raw_hex,omitempty"`
-	// StreamRef: which stream id the op is sent on. 0: the lane's own stream; >0: absolute id; -1: stream 0
+	// StreamRef: which stream id the op is sent on. 0: the lane's own stream; >0: absolute id; -1: stream 0;
+	// -2: the id a SkipID lane left unused (implicitly closed once that lane's stream is open)
 	StreamRef int `json:"stream_ref,omitempty"`
 	// LaneRef > 0: the op is sent on the stream of lane LaneRef-1 (enabled once that lane has a stream id)
 	LaneRef int `json:"lane_ref,omitempty"`
@@ -85,6 +86,8 @@ type Lane struct {
 	AfterResp bool `json:"after_resp,omitempty"`
 	// WaitEnd (client-side runs): the scripted response starts only after the request's END_STREAM arrived
 	WaitEnd bool `json:"wait_end,omitempty"`
+	// SkipID: the lane leaves one odd stream id unused below its own (ops with StreamRef -2 refer to that id)
+	SkipID bool `json:"skip_id,omitempty"`
 }
 
 // Req is a well-formed request as the peer means it.
